@@ -118,8 +118,11 @@ pub struct ShapeIterator<'a, T: Read, S: ReadableShape> {
     _shape: std::marker::PhantomData<S>,
     // From where we read the shapes
     source: &'a mut T,
-    // Current position in bytes in the source.
-    current_pos: usize,
+    // Current position in bytes in the source,
+    // shared with the reader so that a later iterator continues from it.
+    current_pos: &'a mut usize,
+    // Index of the next shape to read, shared with the reader (only used with an index)
+    next_shape: &'a mut usize,
     // How many bytes the header said there are in
     // the file.
     file_length: usize,
@@ -132,7 +135,7 @@ impl<T: Read + Seek, S: ReadableShape> Iterator for ShapeIterator<'_, T, S> {
     type Item = Result<S, crate::Error>;
 
     fn next(&mut self) -> Option<Self::Item> {
-        if self.shapes_indices.is_none() && self.current_pos >= self.file_length {
+        if self.shapes_indices.is_none() && *self.current_pos >= self.file_length {
             None
         } else {
             if let Some(ref mut shapes_indices) = self.shapes_indices {
@@ -140,22 +143,23 @@ impl<T: Read + Seek, S: ReadableShape> Iterator for ShapeIterator<'_, T, S> {
                 // as some shapes may not be stored sequentially and may contain 'garbage'
                 // bytes between them
                 let offset = shapes_indices.next()?.offset;
+                *self.next_shape += 1;
                 if offset < 0 {
                     return Some(Err(Error::InvalidShapeRecordSize));
                 }
                 let start_pos = offset as usize * 2;
-                if start_pos != self.current_pos {
+                if start_pos != *self.current_pos {
                     if let Err(err) = self.source.seek(SeekFrom::Start(start_pos as u64)) {
                         return Some(Err(err.into()));
                     }
-                    self.current_pos = start_pos;
+                    *self.current_pos = start_pos;
                 }
             }
             let (hdr, shape) = match read_one_shape_as::<T, S>(self.source) {
                 Err(e) => {
                     // The source is now at an unknown position. With an index the next record
                     // is found by seeking, without one there is no way to find it: stop.
-                    self.current_pos = if self.shapes_indices.is_some() {
+                    *self.current_pos = if self.shapes_indices.is_some() {
                         usize::MAX
                     } else {
                         self.file_length
@@ -164,8 +168,8 @@ impl<T: Read + Seek, S: ReadableShape> Iterator for ShapeIterator<'_, T, S> {
                 }
                 Ok(hdr_and_shape) => hdr_and_shape,
             };
-            self.current_pos += record::RecordHeader::SIZE;
-            self.current_pos += hdr.record_size as usize * 2;
+            *self.current_pos += record::RecordHeader::SIZE;
+            *self.current_pos += hdr.record_size as usize * 2;
             Some(Ok(shape))
         }
     }
@@ -215,6 +219,10 @@ pub struct ShapeReader<T> {
     source: T,
     header: header::Header,
     shapes_index: Option<Vec<ShapeIndex>>,
+    // Position in bytes of the source (usize::MAX when it is not known)
+    current_pos: usize,
+    // Index of the shape the source is positioned on (only used with an index)
+    next_shape: usize,
 }
 
 impl<T: Read> ShapeReader<T> {
@@ -247,6 +255,8 @@ impl<T: Read> ShapeReader<T> {
             source,
             header,
             shapes_index: None,
+            current_pos: header::HEADER_SIZE as usize,
+            next_shape: 0,
         })
     }
 
@@ -277,6 +287,8 @@ impl<T: Read> ShapeReader<T> {
             source,
             header,
             shapes_index,
+            current_pos: header::HEADER_SIZE as usize,
+            next_shape: 0,
         })
     }
 
@@ -368,12 +380,17 @@ impl<T: Read + Seek> ShapeReader<T> {
     /// # }
     /// ```
     pub fn iter_shapes_as<S: ReadableShape>(&mut self) -> ShapeIterator<'_, T, S> {
+        let next_shape = self.next_shape;
         ShapeIterator {
             _shape: std::marker::PhantomData,
             source: &mut self.source,
-            current_pos: header::HEADER_SIZE as usize,
+            current_pos: &mut self.current_pos,
+            next_shape: &mut self.next_shape,
             file_length: (self.header.file_length.max(0) as usize) * 2,
-            shapes_indices: self.shapes_index.as_ref().map(|s| s.iter()),
+            shapes_indices: self
+                .shapes_index
+                .as_ref()
+                .map(|s| s[next_shape.min(s.len())..].iter()),
         }
     }
 
@@ -439,6 +456,8 @@ impl<T: Read + Seek> ShapeReader<T> {
                 return Some(Err(e));
             }
 
+            // Reading moves the source, and a failed read to somewhere unknown
+            self.current_pos = usize::MAX;
             let (_, shape) = match read_one_shape_as::<T, S>(&mut self.source) {
                 Err(e) => return Some(Err(e)),
                 Ok(hdr_and_shape) => hdr_and_shape,
@@ -450,6 +469,8 @@ impl<T: Read + Seek> ShapeReader<T> {
             {
                 return Some(Err(Error::IoError(e)));
             }
+            self.current_pos = header::HEADER_SIZE as usize;
+            self.next_shape = 0;
             Some(Ok(shape))
         } else {
             Some(Err(Error::MissingIndexFile))
@@ -474,10 +495,12 @@ impl<T: Read + Seek> ShapeReader<T> {
                 .get(index)
                 .map(|shape_idx| (shape_idx.offset as i64 * 2) as u64);
 
-            match offset {
+            let pos = match offset {
                 Some(n) => self.source.seek(SeekFrom::Start(n)),
                 None => self.source.seek(SeekFrom::End(0)),
             }?;
+            self.current_pos = pos as usize;
+            self.next_shape = index.min(shapes_index.len());
             Ok(())
         } else {
             Err(Error::MissingIndexFile)
